@@ -1,1 +1,192 @@
-fn main() {}
+//! Child process used by the real-process checks.
+//!
+//! Dump mode (env VERIF_DUMP=<file>): writes argv (hex), pid/pgid/sid of itself and its parent,
+//! cwd and VERIF_*/WATCHEXEC_* environment as JSON, then exits 0. Used as program *and* as shell.
+//!
+//! Run mode (`vhelper run --log F --lock F [--exit-after MS] [--on-signal exit|ignore|delay:MS]
+//! [--fork-grandchild ignore|exit]`): appends "start/signal/end" lines with CLOCK_MONOTONIC stamps,
+//! holds a non-blocking exclusive flock for its lifetime (logs OVERLAP if it is already held).
+
+use std::{
+	fs::OpenOptions,
+	io::Write,
+	os::unix::{ffi::OsStrExt, io::AsRawFd},
+};
+
+fn mono_ns() -> u128 {
+	let mut ts = libc::timespec { tv_sec: 0, tv_nsec: 0 };
+	unsafe { libc::clock_gettime(libc::CLOCK_MONOTONIC, &mut ts) };
+	ts.tv_sec as u128 * 1_000_000_000 + ts.tv_nsec as u128
+}
+
+fn hex(b: &[u8]) -> String {
+	b.iter().map(|x| format!("{x:02x}")).collect()
+}
+
+fn log(path: &str, line: &str) {
+	if let Ok(mut f) = OpenOptions::new().create(true).append(true).open(path) {
+		let _ = f.write_all(format!("{line}\n").as_bytes());
+	}
+}
+
+fn dump(path: &str) {
+	let argv: Vec<String> = std::env::args_os().map(|a| hex(a.as_bytes())).collect();
+	let pid = unsafe { libc::getpid() };
+	let ppid = unsafe { libc::getppid() };
+	let env: Vec<(String, String)> = std::env::vars_os()
+		.filter_map(|(k, v)| {
+			let k = k.to_string_lossy().into_owned();
+			if k.starts_with("VERIF_") || k.starts_with("WATCHEXEC_") {
+				Some((k, hex(v.as_bytes())))
+			} else {
+				None
+			}
+		})
+		.collect();
+	let mut stdin_hex = String::new();
+	if std::env::var_os("VERIF_READ_STDIN").is_some() {
+		use std::io::Read;
+		let mut buf = Vec::new();
+		let _ = std::io::stdin().read_to_end(&mut buf);
+		stdin_hex = hex(&buf);
+	}
+	let cwd = std::env::current_dir().map(|p| hex(p.as_os_str().as_bytes())).unwrap_or_default();
+	let mut s = String::from("{");
+	s.push_str(&format!("\"argv\":[{}],", argv.iter().map(|a| format!("\"{a}\"")).collect::<Vec<_>>().join(",")));
+	s.push_str(&format!("\"pid\":{pid},\"pgid\":{},\"sid\":{},", unsafe { libc::getpgid(0) }, unsafe { libc::getsid(0) }));
+	s.push_str(&format!("\"ppid\":{ppid},\"ppgid\":{},\"psid\":{},", unsafe { libc::getpgid(ppid) }, unsafe { libc::getsid(ppid) }));
+	s.push_str(&format!("\"cwd\":\"{cwd}\",\"stdin\":\"{stdin_hex}\","));
+	s.push_str(&format!("\"env\":{{{}}}", env.iter().map(|(k, v)| format!("\"{k}\":\"{v}\"")).collect::<Vec<_>>().join(",")));
+	s.push('}');
+	// write atomically: tmp + rename
+	let tmp = format!("{path}.tmp{pid}");
+	if std::fs::write(&tmp, s).is_ok() {
+		let _ = std::fs::rename(&tmp, path);
+	}
+}
+
+fn main() {
+	if let Ok(p) = std::env::var("VERIF_DUMP") {
+		dump(&p);
+		return;
+	}
+	let args: Vec<String> = std::env::args().collect();
+	if args.get(1).map(String::as_str) != Some("run") {
+		eprintln!("vhelper: nothing to do");
+		std::process::exit(3);
+	}
+	let mut logp = String::new();
+	let mut lockp = String::new();
+	let mut exit_after: Option<u64> = None;
+	let mut on_signal = "exit".to_string();
+	let mut grandchild: Option<String> = None;
+	let mut tag = String::new();
+	let mut i = 2;
+	while i < args.len() {
+		match args[i].as_str() {
+			"--log" => {
+				i += 1;
+				logp = args[i].clone();
+			}
+			"--lock" => {
+				i += 1;
+				lockp = args[i].clone();
+			}
+			"--exit-after" => {
+				i += 1;
+				exit_after = args[i].parse().ok();
+			}
+			"--on-signal" => {
+				i += 1;
+				on_signal = args[i].clone();
+			}
+			"--fork-grandchild" => {
+				i += 1;
+				grandchild = Some(args[i].clone());
+			}
+			"--tag" => {
+				i += 1;
+				tag = args[i].clone();
+			}
+			_ => {}
+		}
+		i += 1;
+	}
+	// block the signals we want to observe and wait for them synchronously
+	let sigs = [libc::SIGTERM, libc::SIGINT, libc::SIGHUP, libc::SIGUSR1, libc::SIGUSR2, libc::SIGQUIT];
+	let mut set: libc::sigset_t = unsafe { std::mem::zeroed() };
+	unsafe {
+		libc::sigemptyset(&mut set);
+		for s in sigs {
+			libc::sigaddset(&mut set, s);
+		}
+		libc::sigprocmask(libc::SIG_BLOCK, &set, std::ptr::null_mut());
+	}
+	let pid = unsafe { libc::getpid() };
+	if let Some(mode) = &grandchild {
+		// a member of the same process group that outlives (or not) the leader
+		let child = unsafe { libc::fork() };
+		if child == 0 {
+			let me = unsafe { libc::getpid() };
+			log(&logp, &format!("gstart {me} {} {tag}", mono_ns()));
+			loop {
+				let mut info: libc::siginfo_t = unsafe { std::mem::zeroed() };
+				let ts = libc::timespec { tv_sec: 30, tv_nsec: 0 };
+				let s = unsafe { libc::sigtimedwait(&set, &mut info, &ts) };
+				if s > 0 {
+					log(&logp, &format!("gsignal {me} {} {s}", mono_ns()));
+					if mode == "exit" {
+						log(&logp, &format!("gend {me} {}", mono_ns()));
+						std::process::exit(0);
+					}
+				} else {
+					std::process::exit(0);
+				}
+			}
+		}
+	}
+	let lockf = OpenOptions::new().create(true).write(true).open(&lockp).ok();
+	if let Some(f) = &lockf {
+		let r = unsafe { libc::flock(f.as_raw_fd(), libc::LOCK_EX | libc::LOCK_NB) };
+		if r != 0 {
+			log(&logp, &format!("OVERLAP {pid} {}", mono_ns()));
+		}
+	}
+	let envs: Vec<String> = std::env::vars()
+		.filter(|(k, _)| k.starts_with("WATCHEXEC_") || k.starts_with("VERIF_"))
+		.map(|(k, v)| format!("{k}={}", hex(v.as_bytes())))
+		.collect();
+	log(&logp, &format!("start {pid} {} {tag} pgid={} {}", mono_ns(), unsafe { libc::getpgid(0) }, envs.join(",")));
+	let start = mono_ns();
+	let mut deadline: Option<u128> = exit_after.map(|ms| start + u128::from(ms) * 1_000_000);
+	loop {
+		let now = mono_ns();
+		let wait_ns: u128 = match deadline {
+			Some(d) if d <= now => break,
+			Some(d) => d - now,
+			None => 3_600_000_000_000,
+		};
+		let ts = libc::timespec {
+			tv_sec: (wait_ns / 1_000_000_000) as libc::time_t,
+			tv_nsec: (wait_ns % 1_000_000_000) as libc::c_long,
+		};
+		let mut info: libc::siginfo_t = unsafe { std::mem::zeroed() };
+		let s = unsafe { libc::sigtimedwait(&set, &mut info, &ts) };
+		if s > 0 {
+			log(&logp, &format!("signal {pid} {} {s}", mono_ns()));
+			if on_signal == "exit" {
+				break;
+			} else if let Some(ms) = on_signal.strip_prefix("delay:") {
+				let ms: u64 = ms.parse().unwrap_or(0);
+				let d = mono_ns() + u128::from(ms) * 1_000_000;
+				deadline = Some(deadline.map_or(d, |x| x.min(d)));
+				// further signals are only logged
+				on_signal = "ignore".to_string();
+			}
+		} else {
+			// timeout (or EINTR): re-evaluate
+		}
+	}
+	log(&logp, &format!("end {pid} {}", mono_ns()));
+	drop(lockf);
+}
